@@ -226,6 +226,16 @@ def run_assign(case):
         return dict(declared=False, exc=type(e).__name__)
     value = build(case["v"], objs)
     out["input"] = canon(value, objs)
+    # what a parameter that was never assigned holds (TypeConfig.__init__: the declared default)
+    try:
+        fresh = cls()
+        out.update(init_raised=False, initial=stored(fresh, objs))
+        if "x" in fresh.__xpm__.values:
+            out["initial_read"] = canon(fresh.x, objs)
+    except Exception as e:
+        out.update(init_raised=True, init_exc=type(e).__name__, initial=ABSENT, raised=False, before=ABSENT,
+                   after=ABSENT)
+        return out
     if case["via"] == "ctor":
         try:
             o = cls(x=value)
@@ -263,7 +273,8 @@ def has_obj(v):
 
 
 def run_graph(case, xp):
-    """case: nodes [{c, fields {name: value}, pre [ids]}], ops [{op: submit|validate, root, init [ids]}]"""
+    """case: nodes [{c, fields {name: value}, pre [ids]}],
+    ops [{op: submit|validate, root, init [ids]} | {op: set, node, field, value}]"""
     objs = Objects()
     nodes = case["nodes"]
     for i, n in enumerate(nodes):
@@ -278,20 +289,24 @@ def run_graph(case, xp):
             objs.by_id[i].add_pretasks(*[objs.by_id[j] for j in n["pre"]])
     answers = []
     for op in case["ops"]:
-        root = objs.by_id[op["root"]]
+        root = objs.by_id[op["node" if op["op"] == "set" else "root"]]
         before = len(xp.scheduler.jobs)
-        unfinished = xp.unfinishedJobs
         a = {}
         try:
             if op["op"] == "submit":
                 root.submit(init_tasks=[objs.by_id[j] for j in op.get("init", [])])
+            elif op["op"] == "set":
+                # an assignment in the middle of the history (e.g. a task that went through its own
+                # submit, given as a parameter of another one)
+                setattr(root, op["field"], build(op["value"], objs))
             else:
                 root.__xpm__.validate()
             a["raised"] = False
         except Exception as e:
             a.update(raised=True, exc=type(e).__name__)
         a["delta"] = len(xp.scheduler.jobs) - before
-        a["registered"] = bool(root.__xpm__.job is not None and any(j is root.__xpm__.job for j in xp.scheduler.jobs.values()))
+        a["registered"] = bool(op["op"] != "set" and root.__xpm__.job is not None
+                               and any(j is root.__xpm__.job for j in xp.scheduler.jobs.values()))
         answers.append(a)
     return answers
 
